@@ -1,0 +1,37 @@
+//go:build verif
+
+// Contracts for package conn, checked by /verif/govc (comment-only; see /verif/DESIGN.md).
+package conn
+
+// ---------------------------------------------------------------- C20/C18: channel packetisation
+
+// nextPacketMsg cuts the next packet off the message being sent: at most maxPacketMsgPayloadSize bytes,
+// a prefix of what remained; EOF exactly when nothing remains.
+//@ func (ch *Channel) nextPacketMsg() (r kp2p.PacketMsg)
+//@   for C20
+//@   requires ch != nil && ch.maxPacketMsgPayloadSize > 0
+//@   modifies ch.sending, ch.sendQueueSize
+//@   ensures [payloadBounded] len(r.Data) <= ch.maxPacketMsgPayloadSize
+//@   ensures [chunkIsPrefix] len(r.Data) == min(ch.maxPacketMsgPayloadSize, old(len(ch.sending))) && (forall i int :: 0 <= i && i < len(r.Data) ==> r.Data[i] == old(ch.sending[i]))
+//@   ensures [restIsSuffix] len(r.Data) + len(ch.sending) == old(len(ch.sending)) && (forall i int :: 0 <= i && i < len(ch.sending) ==> ch.sending[i] == old(ch.sending[len(r.Data) + i]))
+//@   ensures [eofIffDone] r.EOF <==> len(ch.sending) == 0
+
+// recvPacketMsg appends a packet to the message being received; it refuses (leaving the buffer as it is)
+// exactly when the accumulated length would exceed the channel's capacity; on EOF it hands out the
+// whole message once and starts afresh.
+//@ func (ch *Channel) recvPacketMsg(packet kp2p.PacketMsg) (msg []byte, err error)
+//@   for C20 C18
+//@   safe
+//@   requires ch != nil && ch.desc.RecvBufferCapacity >= 0 && ch.desc.RecvBufferCapacity <= 281474976710656
+//@   modifies ch.recving, []byte
+//@   ensures [oversizeRefused] err != nil <==> old(len(ch.recving)) + len(packet.Data) > ch.desc.RecvMessageCapacity
+//@   ensures [refusedUntouched] err != nil ==> ch.recving == old(ch.recving) && msg == nil
+//@   ensures [accumulates] err == nil && !packet.EOF ==> msg == nil && len(ch.recving) == old(len(ch.recving)) + len(packet.Data)
+//@   ensures [delivers] err == nil && packet.EOF ==> len(msg) == old(len(ch.recving)) + len(packet.Data) && len(ch.recving) == 0
+//@   ensures [contentKept] err == nil && packet.EOF ==> (forall i int :: 0 <= i && i < old(len(ch.recving)) ==> msg[i] == old(ch.recving[i])) && (forall j int :: 0 <= j && j < len(packet.Data) ==> msg[old(len(ch.recving)) + j] == old(packet.Data[j]))
+
+// ---------------------------------------------------------------- C20: authenticated handshake
+//@ func MakeSecretConnection(conn io.ReadWriteCloser, locPrivKey *ecdsa.PrivateKey) (sc *SecretConnection, err error)
+//@   for C20
+//@   modifies *
+//@   ensures [onlyAfterSignatureCheck] err == nil ==> sc != nil && (exists h Content, s Content :: crypto.sigOKc(crypto.pubAddr(sc.remPubKey), h, s))
